@@ -18,6 +18,8 @@ Boundary(ty) ==
     IN { Z(FALSE, m) : m \in pos }
        \cup (IF ty.s THEN { Z(TRUE, m) : m \in {<<1>>, <<2>>, <<7>>, mx, NAdd(mx, <<1>>), NDivS(mx, 2).q, NPow2(ty.b \div 2)} } ELSE {})
 
+BoundaryOf == [t \in Types |-> Boundary(t)]          \* constant-level: evaluated once, not once per enumerated case
+
 IsMin(ty, x) == ty.s /\ x.neg /\ x.mag = NAdd(Max(ty), <<1>>)
 Defined(ty, op, a, b) == (op \in {"/", "%"}) => b.mag # <<>>
 (* MIN / -1 and MIN % -1: the quotient 2^(b-1) wraps to MIN, the remainder is 0.  Emitted with a tag so that the
@@ -28,17 +30,18 @@ Lit(x) == [neg |-> x.neg, d |-> NToDec(x.mag)]
 
 VARIABLES ty, op, a, b
 vars == <<ty, op, a, b>>
-Init == ty = [s |-> TRUE, b |-> 0] /\ op = "" /\ a = Z(FALSE, <<>>) /\ b = Z(FALSE, <<>>)
-Binary == /\ ty' \in Types
+(* one initial state per type, so that TLC's workers enumerate the cases of different types side by side *)
+Init == ty \in Types /\ op = "" /\ a = Z(FALSE, <<>>) /\ b = Z(FALSE, <<>>)
+Binary == /\ ty' = ty
           /\ op' \in ArithOps \cup CmpOps
-          /\ a' \in Boundary(ty') /\ b' \in Boundary(ty')
+          /\ a' \in BoundaryOf[ty'] /\ b' \in BoundaryOf[ty']
           /\ Defined(ty', op', a', b')
-Unary == /\ ty' \in Types
+Unary == /\ ty' = ty
          /\ op' \in {"neg", "dup+", "dup-", "dup*"} \cup { "as " \o TyName(t2) : t2 \in Types \ {ty'} }   \* dup: a (op) a
          /\ (op' = "neg" => ty'.s)
-         /\ a' \in Boundary(ty') /\ b' = Z(FALSE, <<>>)
+         /\ a' \in BoundaryOf[ty'] /\ b' = Z(FALSE, <<>>)
 Next == op = "" /\ (Binary \/ Unary)          \* one step from the initial state to each case
 Spec == Init /\ [][Next]_vars
-Emit == ty.b = 0 \/ PrintT("@@CASE " \o ToJson([ty |-> TyName(ty), op |-> op, a |-> Lit(a), b |-> Lit(b),
+Emit == op = "" \/ PrintT("@@CASE " \o ToJson([ty |-> TyName(ty), op |-> op, a |-> Lit(a), b |-> Lit(b),
                                                   sp |-> IF op \in ArithOps THEN Special(ty, op, a, b) ELSE ""]))
 =============================================================================
